@@ -222,3 +222,36 @@ PROPS['C18'] = {
     'outside': ['rustc\'s acceptance of const items for every length (const-checker rules, evaluator limits): the compiler\'s verdict, not a solver\'s; a rejection of the lattice items surfaces as a build error (exit 2)'],
     'assumptions': [],
 }
+
+
+def mrun(scenarios, nmax=3, timeout=1800):
+    return {'scenarios': list(scenarios), 'nmax': nmax, 'timeout': timeout}
+
+GUARDS = ['drop.ArrayConsumer', 'drop.ArrayBuilder', 'drop.IntrusiveArrayBuilder']
+PROPS['C05']['mir'] = {
+    'quick': [mrun(['iter.nth', 'iter.nth_back', 'iter.count', 'iter.last', 'iter.drop'] + GUARDS)],
+    'thorough': [mrun(['iter.nth', 'iter.nth_back', 'iter.count', 'iter.last', 'iter.drop', 'iter.next', 'iter.next_back'] + GUARDS + ['try_from_iter', 'map', 'zip'], nmax=6)],
+}
+PROPS['C05']['technique'] = 'symbolic execution of rustc MIR with unwind edges + z3 (all 64-bit N for the loop-free iterator methods); Kani/CBMC observation harness'
+PROPS['C05']['bounds'] = 'M: ALL 64-bit N, every (index, index_back), every skip count, every choice of the panicking destructor (unwind edge out of drop_in_place / drop). K: N <= 5 (thorough 8).'
+PROPS['C05']['functions'] += ['GenericArrayIter::{count,last,drop,next,next_back}', 'ArrayBuilder/IntrusiveArrayBuilder/ArrayConsumer::drop']
+PROPS['C05']['assumptions'] += ['language semantics: a value whose Drop::drop is already executing is not dropped again by the glue; a second panic during cleanup aborts',
+                                'slice drop glue: when one element destructor panics the rest of the range is still dropped']
+PROPS['C04']['mir'] = {
+    'quick': [mrun(['generate', 'map', 'fold', 'zip', 'iter.clone', 'try_from_iter', 'box_generate'] + GUARDS, nmax=3)],
+    'thorough': [mrun(['generate', 'map', 'fold', 'zip', 'iter.clone', 'try_from_iter', 'box_generate'] + GUARDS, nmax=6)],
+}
+PROPS['C04']['technique'] = 'symbolic execution of rustc MIR with unwind edges, drop flags and an element-ownership ledger + z3 (the panic point is a symbolic choice over every call of caller code); Kani/CBMC for the guards\' Drop impls'
+PROPS['C04']['bounds'] = 'M: N <= 3 (thorough 6) symbolic with unwinding assertion, every call index of the closure / T::clone / source.next / size_hint as panic point, needs_drop symbolic; guards\' Drop: ALL N. K: N <= 4 (thorough 8).'
+PROPS['C04']['functions'] += ['GenericSequence::generate (GenericArray, Box)', 'FunctionalSequence::{map,fold} for GenericArray', 'GenericArray::inverted_zip', 'GenericArrayIter::clone', 'GenericArray::try_from_iter', 'IntrusiveArrayBuilder::{new,iter_position,extend,is_full,finish,array_assume_init}', 'ArrayConsumer::{new,iter_position}', 'FromIterator::from_iter']
+PROPS['C04']['assumptions'] += ['summaries of core iterator adaptors (slice::Iter/IterMut, Enumerate, Map, Zip: a.next() then b.next(), stop at first None; internal iteration = repeated next)',
+                                'caller-supplied code consumes its by-value arguments and either returns a fresh owned value or panics']
+PROPS['C04']['outside'] += ['trait-default map/zip/fold bodies for & / &mut / Box receivers on the unwind path (they delegate to core iterators and the by-value iterator, whose Drop is covered for all N)', 'N > 6 for the unrolled pipelines']
+PROPS['C06']['mir'] = {
+    'quick': [mrun(['iter.next', 'iter.next_back', 'iter.nth', 'iter.nth_back', 'iter.len', 'iter.size_hint', 'iter.count', 'iter.last', 'iter.as_slice'])],
+}
+PROPS['C06']['technique'] = 'bounded model checking with Kani/CBMC (inductive step vs. deque model) + symbolic execution of rustc MIR with z3 (post-state equations for all 64-bit N)'
+PROPS['C06']['bounds'] += ' M: post-state equations of next/next_back/nth/nth_back/len/size_hint/count/last/as_slice and the invariant index <= index_back <= N for ALL 64-bit N.'
+PROPS['C16']['mir'] = {'quick': [mrun(['box_generate'], nmax=3)], 'thorough': [mrun(['box_generate'], nmax=6)]}
+PROPS['C16']['technique'] = 'bounded model checking with Kani/CBMC under its allocator model (+ failing-allocator stub); symbolic execution of rustc MIR with a heap-block ledger + z3 for the panicking generator'
+PROPS['C07']['mir'] = {'quick': [mrun(['try_from_iter'], nmax=3)], 'thorough': [mrun(['try_from_iter'], nmax=6)]}
